@@ -257,7 +257,7 @@ type TxResult struct {
 func (r TxResult) OK() bool { return r.Code == 0 }
 
 // Panicked reports whether the SDK's recovery middleware caught a panic.
-func (r TxResult) Panicked() bool { return r.Codespace == "sdk" && r.Code == 111222 }
+func (r TxResult) Panicked() bool { return r.Code == 111222 }
 
 // EncodeTx builds unsigned transaction bytes; the memo makes them unique.
 func (c *Chain) EncodeTx(msgs []sdk.Msg) ([]byte, error) {
